@@ -308,7 +308,7 @@ pub(crate) fn add(ctx: &mut TulispContext) {
         varlist: TulispObject,
         rest: TulispObject,
     ) -> Result<TulispObject, Error> {
-        if !rest.consp() {
+        if !rest.listp() {
             return Err(Error::new(
                 ErrorKind::TypeMismatch,
                 "let: expected varlist and body".to_string(),
